@@ -1,6 +1,7 @@
 """C11 — minimal_m_separator / is_minimal_m_separator: sound, complete, minimal; x, y single nodes of any label type."""
 import graphs as gr
 import c12_ref as ref
+import c12_unit as unit
 
 PROP = "C11"
 RULE = ("every acyclic ADMG(n) and ancestral ANC(n) graph, n<=3 quick / n<=4 thorough, every node pair (x,y) (ordered for n<=3, "
@@ -16,7 +17,11 @@ RULE = ("every acyclic ADMG(n) and ancestral ANC(n) graph, n<=3 quick / n<=4 tho
         "minimal_m_separator is fed to is_minimal_m_separator twice (must stay intact and be judged True), the documented defaults "
         "i=None / r=None are compared with the explicit sets; a third of the n<=3 graphs also as ADMG instances; "
         "custom edge-type names ('dir','bidir','undir') passed "
-        "explicitly on half of the n<=3 graphs, an eighth of the 4-node and random ones. DEEP stream (2 graphs of about 200 nodes: a directed chain of 200 ancestors of x with a member "
+        "explicitly on half of the n<=3 graphs, an eighth of the 4-node and random ones. UNIT-LEVEL stream: the helpers _anterior (vs C12.Model.ant_of, Run.v mode 3) and "
+        "_bfs_with_marks (vs C11.Model.marks, mode 4) called directly: every small graph x every start set / (start, check set), "
+        "300/3000 graphs n=6..12 with start sets of all but 1-3 nodes densely parents of each other around a hub, random undirected "
+        "graphs n=5..10 for the marks; 200/2000 separator cases of the same shape (I = almost all nodes, R = V-{x,y}); "
+        "DEEP stream (2 graphs of about 200 nodes: a directed chain of 200 ancestors of x with a member "
         "of I far up the chain, an undirected chain of 200 nodes ending in a member of I) run with 120 frames of recursion head-room "
         "(HEAD is iterative there); their expectation is the Python transcription harness/c12_ref.py of the models' definitions "
         "(m-separation through the proved moralisation criterion, all minimal separators by subset enumeration), which on every other "
@@ -152,6 +157,23 @@ def gen_cases(tier, rng):
         others = [v for v in g["V"] if v not in (x, y)]
         qs.append([x, y, [], others, [list(z) for z in gr.subsets(others)]])
         yield {"kind": "undchain", "g": g, "qs": qs, "oracle": True}
+    # UNIT level: the helpers _anterior and _bfs_with_marks called directly
+    yield from unit.unit_cases(tier, rng, marks=True, nmax_ant=3 if tier == "quick" else 4)
+    # the large-I shape: {x, y} ∪ I = almost all nodes, densely parents of each other, R = V - {x, y}
+    for i in range(200 if tier == "quick" else 2000):
+        n = rng.randint(6, 8)
+        g, S = unit.hub_dag(rng, n)
+        qs = []
+        for _ in range(3):
+            x, y = rng.sample(S, 2)
+            I = [v for v in S if v not in (x, y)]
+            rest = [v for v in g["V"] if v not in S]
+            zs = [sorted(I + z) for z in gr.subsets(rest)] + [sorted(I[1:] + rest)]
+            qs.append([x, y, I, sorted(I + rest), zs])
+        c = {"kind": "hub", "g": g, "qs": qs, "oracle": False}
+        if i % 3 == 1:
+            c["_order"] = i
+        yield c
     # DEEP stream: recursion head-room of 120 frames, expectation from the Python transcription of the model
     for name, g, qs in deep_cases():
         yield {"kind": "deep:" + name, "g": g, "qs": qs, "oracle": False, "deep": name, "_reclimit": 120}
@@ -220,12 +242,16 @@ def gen_cases(tier, rng):
 
 
 def encode(case):
+    if case.get("unit"):
+        return unit.encode(case)
     if case.get("deep"):
         return [1, gr.enc(gr.G([])), []]      # too long for the round-based Gallina closures: expectation from c12_ref
     return [0 if case["oracle"] else 1, gr.enc(case["g"]), case["qs"]]
 
 
 def decode(case, v):
+    if case.get("unit"):
+        return unit.decode(case, v)
     out = []
     if case.get("deep"):
         for x, y, I, R, Zs in case["qs"]:
@@ -350,6 +376,8 @@ def _queries(M, lab, inv, kw, qs, argkind=None):
 
 
 def run_impl(case):
+    if case.get("unit"):
+        return unit.run_impl(case)
     import random
     g = case["g"]
     rep = case.get("rep")
@@ -435,6 +463,8 @@ def _query_diffs(case, impl, model):
 
 
 def compare(case, impl, model):
+    if case.get("unit"):
+        return unit.compare(case, impl, model)
     if "exc" in impl:
         return "exception"
     d = _query_diffs(case, impl, model)
@@ -456,6 +486,8 @@ def compare(case, impl, model):
 
 def classify(case, impl, model):
     """failure classes (used to separate replays per defect)"""
+    if case.get("unit"):
+        return unit.compare(case, impl, model)
     if "exc" in impl:
         return None
     d = _query_diffs(case, impl, model)
@@ -482,17 +514,24 @@ def classify(case, impl, model):
 
 
 def nontrivial(case, model):
+    if case.get("unit"):
+        return unit.nontrivial(case, model)
     some = any(any(len(s) > 0 for s in m["mins_model"]) for m in model)
     none = any(not m["mins_model"] for m in model)
     return some and none
 
 
 def key(case):
+    if case.get("unit"):
+        return (case["unit"], gr.canon(case["g"]), case.get("_order"), len(case.get("starts", case.get("qs", []))))
     return (gr.canon(case["g"]), case.get("_lab", "int"), case.get("rep"), tuple(case.get("names") or ()), case.get("argkind"),
             case.get("obj"), case.get("gattr"))
 
 
 def shrink(case):
+    if case.get("unit"):
+        yield from unit.shrink(case)
+        return
     if len(case["qs"]) > 1:
         for i in range(len(case["qs"])):
             yield dict(case, qs=[case["qs"][i]])
